@@ -238,6 +238,10 @@ func (fe *FuncEnc) comp(st *State, name string, s Sort) Term {
 		if strings.HasPrefix(name, "A_") {
 			fe.addItem(fmt.Sprintf("(assert (not (select %s 0)))", init), "")
 		}
+		if name == "G_io_EOF" {
+			// io.EOF: one fixed non-nil error value, never reassigned
+			fe.addItem(fmt.Sprintf("(assert (= %s (VOther %d 0)))", init, errTag), "")
+		}
 		if name == "G_io_Exited" {
 			// no code runs after the process has exited
 			fe.addItem(fmt.Sprintf("(assert (not %s))", init), "")
@@ -319,7 +323,7 @@ func (fe *FuncEnc) emit1(kind, label string, path, goal Term, clause string, pos
 	if n := fe.cur.labelCnt[key]; n > 1 {
 		full = fmt.Sprintf("%s#%d", full, n)
 	}
-	if fe.cur != nil && fe.cur.curSt != nil {
+	if fe.cur != nil && fe.cur.curSt != nil && kind != "post" {
 		if ex, ok := fe.cur.curSt.heap["G_io_Exited"]; ok && ex.S != "false" {
 			path = tAnd(path, tNot(ex))
 		}
